@@ -116,7 +116,11 @@ func (q *rpcQueue) Pop(ctx context.Context) (*RPC, error) {
 		// Wake up all the waiting routines. The only routine that correponds
 		// to this Pop call will return from the function. Note that this can
 		// be expensive, if there are too many waiting routines.
+		// The lock is needed so that the broadcast cannot fall between Pop's
+		// ctx.Done() check and its registration in Wait (lost wake-up).
+		q.queueMu.Lock()
 		q.dataAvailable.Broadcast()
+		q.queueMu.Unlock()
 	})
 	defer unregisterAfterFunc()
 
